@@ -52,6 +52,16 @@ CHECKS = {
              "Not proved: behaviour under concurrent readers (mutex scopes argued, not modelled), FrozenVec slice validity.",
         technique="Coq proof (state invariant + refinement of a state-free specification, by induction over the call sequence) + differential correspondence run evaluated by vm_compute",
         design="4/C13"),
+    "C02": dict(
+        text="Coq theorems C02_attribution (for time-ordered mapping operations and samples, every frame resolves in root-to-leaf order to the C11 history "
+             "specification applied to the operations stamped at or before the sample's time, at the lookup address ip / return-1 / adjusted; uncovered and kernel "
+             "frames stay raw; relative address = relative start + offset), C02_later_mmap_irrelevant, C02_cutoff_constant (the `<=` regenerated from the source) and "
+             "C02_lookup_addresses. Tied to the code by driving ProcessSampleData::flush_samples_to_profile (samply/src/shared compiled in by #[path]) with generated "
+             "queues/samples whose op timestamps fall before, exactly at and after sample times, and evaluating spec + model in Coq on the serialized stacks.",
+        note="Trusted: Coq kernel; harness h_samply + JSON read-back; C11's model of LibMappings. This is the flush half of C02: the converter's construction of the queue from "
+             "MMAP2/FORK records (relative start from page offset or ELF segments, inheritance across fork) is not covered by this check. jitdump/perf-map tables empty.",
+        technique="Coq proof (queue replay = filter by timestamp on ordered queues; composition lemma; refinement to C11's history specification) + differential correspondence run evaluated by vm_compute",
+        design="4/C01,C17,C02"),
 }
 
 NOT_YET = "check not built yet in this development (planned: see DESIGN.md section 4); no claim is made"
